@@ -274,6 +274,13 @@ func checkRun(kind string, s spec, res string, dur time.Duration) {
 		report(panicKey(res), "running "+kind+" program panicked: "+res, replay)
 		return
 	}
+	if obs != nil {
+		replay["steps"] = obs.steps
+		for _, v := range obs.viol {
+			kv := strings.SplitN(v, "|", 2)
+			report(kv[0], "per-step oracle on the real interpreter loop: "+kv[1], replay)
+		}
+	}
 	f := strings.Fields(res)
 	if len(f) < 2 {
 		report("unparsable-result", res, replay)
